@@ -966,6 +966,21 @@ static void cmdPool(const Case& c) {
                 });
                 rec->d.flushText();
                 std::vector<std::string> lines = rec->d.lines;
+                // errors reported at one and the same position come out in the iteration order of a hash table of attribute definitions,
+                // which a restored pool does not share with the original: order each such run by (severity, domain, code)
+                {
+                    std::vector<std::string>& sl = rec->d.sideLines;
+                    size_t a = 0;
+                    while (a < sl.size()) {
+                        if (sl[a].compare(0, 4, "ERR\t")) { a++; continue; }
+                        std::vector<std::string> fa; { size_t p0 = 0; for (;;) { size_t q = sl[a].find('\t', p0); fa.push_back(sl[a].substr(p0, q == std::string::npos ? std::string::npos : q - p0)); if (q == std::string::npos) break; p0 = q + 1; } }
+                        std::string pos = fa.size() > 6 ? fa[4] + "\t" + fa[5] + "\t" + fa[6] : std::string();
+                        size_t b = a + 1;
+                        while (b < sl.size() && !sl[b].compare(0, 4, "ERR\t") && sl[b].size() >= pos.size() && sl[b].compare(sl[b].size() - pos.size(), pos.size(), pos) == 0) b++;
+                        std::sort(sl.begin() + a, sl.begin() + b);
+                        a = b;
+                    }
+                }
                 lines.insert(lines.end(), rec->d.sideLines.begin(), rec->d.sideLines.end());
                 lines.insert(lines.end(), sink.begin(), sink.end());
                 lines.push_back("R\t" + status + "\t" + itos(rec->nW) + "\t" + itos(rec->nE) + "\t" + itos(rec->nF) + "\t" + itos((long long)ps[k]->getErrorCount()));
